@@ -15,6 +15,9 @@ def main(tier, replay=None):
         dict(name="lost-spawner-l1r1", opts=[M, "msgs=l1r1", "signals=0", "verdicts=KZDE", "reorder=2"], bounds="0,0,0,%d" % (2 if q else 4), total=4, deadline=1800),
         dict(name="lost-spawner-l2-r2", opts=[M, "msgs=l2+r2", "signals=0", "verdicts=KDE", "reorder=2"], bounds="0,0,0,3", total=3, tier="thorough", deadline=1800),
         dict(name="stray-and-mangled-reports-l1r1", opts=[M, "msgs=l1r1", "signals=0", "verdicts=KZDghueOQkjzd", "reorder=2"], bounds="0,0,0,%d" % (2 if q else 3), total=3, deadline=1800),
+        dict(name="catch-all-and-exception-domains", opts=[M, "msgs=r2+v1", "catchall=1", "signals=0", "verdicts=KZD", "reorder=2"], bounds="0,0,0,%d" % (2 if q else 3), total=3, deadline=1800),
+        # acceptance while the cleanup pass runs: an injector that hangs must be dead (24 h) before its files count as abandoned (36 h), or an accepted message loses its body
+        dict(scn="c02", name="hung-injector-24h-36h", opts=["family=stale", "msgs=l1", "maxticks=260", "signals=0", "verdicts=KD", "reorder=1"], bounds="0,0,0,0", total=0),
         dict(name="crash-l1r1", opts=[M, "msgs=l1r1"], bounds="0,0,1,%d" % (1 if q else 2), total=2 if q else 3, deadline=1800),
         dict(name="two-crashes-l1r1", opts=[M, "msgs=l1r1", "signals=0"], bounds="0,0,2,0", total=2, tier="thorough", deadline=1800),
         dict(name="crash-l2-bounces", opts=[M, "msgs=l2", "signals=0"], bounds="0,0,1,%d" % (2 if q else 3), total=2 if q else 4, deadline=1800),
